@@ -41,7 +41,7 @@ def _slot_correspondence(prop, report, tier, cases=None):
 
 SLOT_FAMILIES = {
     "C02": ("insert_cnt", "shift_right_cnt", "shift_right1", "fill_after_shift", "erase", "insert_own"),
-    "C09": ("insert_cnt_th", "resize_grow", "assign_grow", "assign_shrink"),
+    "C09": ("insert_cnt_th", "resize_grow", "assign_grow", "assign_shrink", "emplace_n_th", "emplace_grow_th", "emplace_back_grow_th", "insert_n_th", "shift_left"),
     "C10": ("insert_own",),
 }
 
@@ -193,7 +193,7 @@ def replay(prop, payload):
             for h in hs:
                 for s in h.steps:
                     print("  %s -> %s | %s" % (s.op, s.res, " | ".join(s.conts)))
-                fs = [f for f in h.failures() if f[1] in vecprops.OWNED.get(prop, {prop})]
+                fs = [f for f in h.failures() if f[1] in vecprops.OWNED.get(prop, {prop}) or f[1] == "CRASH"]
                 if fs:
                     for f in fs[:5]:
                         print("  FAIL step=%s %s: %s" % f)
